@@ -129,7 +129,13 @@ def layout_of(ctx, cls, o):
                     env[s.targets[0].id] = v
             if len(env) == before:
                 break
+        # bases that are only looked at (a motif test `records[0].sequence[4:24] != MOTIF`, like startswith) are not cut out of the read
+        compared = {id(x) for c_ in walk_no_nested(f) if isinstance(c_, ast.Compare) for x in ast.walk(c_)}
+        compared |= {id(c_.func.value) for c_ in walk_no_nested(f) if isinstance(c_, ast.Call) and isinstance(c_.func, ast.Attribute)
+                     and c_.func.attr in ('startswith', 'endswith', 'find', 'index', 'count', 'rfind')}
         for n in walk_no_nested(f):
+            if id(n) in compared:
+                continue
             if isinstance(n, ast.Subscript) and isinstance(n.slice, ast.Slice) and isinstance(n.value, ast.Attribute) and n.value.attr == 'sequence' \
                     and isinstance(n.value.value, ast.Subscript) and src(n.value.value.value) == 'records':
                 mate = fold(n.value.value.slice, {**attrs, **env})
